@@ -10,10 +10,17 @@
 (*        a recording of a running @time_trigger function: `at` = UTC instant of the run on   *)
 (*        the virtual clock, `tt` = its trigger_time kwarg, in order; observation from        *)
 (*        startup until the UTC instant `horizon`, then the function was removed              *)
+(*   [kind |-> "mix",    ... as "run", runs : <<[at, type, tt]>>, stims : <<[at, k]>>, co, t0] *)
+(*        a recording of a function with @time_trigger AND other trigger sources              *)
+(*        (TimeLoopCore): every run with its trigger_type, the stimuli applied (UTC instant   *)
+(*        = clock reading, kind), the other sources `co`, the definition instant t0.          *)
+(*        The time runs alone must be those of a "run" recording - whatever woke the trigger  *)
+(*        up in between; every other run must have a cause among the stimuli.  One            *)
+(*        INFO {id, facts} line per "mix" case (coverage: what the recording exercised).      *)
 (*   [kind |-> "utc",    id, t, fold, obs]   /  [kind |-> "local", id, u, obs : [t, fold]]    *)
 (*        validation of the environment table against the platform's zone database            *)
 (* Verdicts are total: every case is accepted silently or REJECTed with id and clause.        *)
-EXTENDS Calendar, TLC, Json, IOUtils
+EXTENDS TimeLoopCore, TLC, Json, IOUtils
 
 Batch == JsonDeserialize(IOEnv.CASES)
 Cases == Batch.cases
@@ -25,7 +32,7 @@ DefaultV(c) == [ref |-> DayOf(c.now.t), elapsed |-> FALSE, incl |-> FALSE]
 Dst(N, t) == LET a == TS!OffAtUtc(TS!Utc(N)[1])  b == TS!OffAtUtc(TS!UtcOfT(t)[1])
              IN IF a = b THEN "none" ELSE IF b > a THEN "fwd" ELSE "back"
 Ok == [ok |-> TRUE]
-Rej(c, clause, idx, dst, exp) == [ok |-> FALSE, id |-> c.id, clause |-> clause, idx |-> idx, dst |-> dst, exp |-> exp]
+Rej(c, clause, idx, dst, exp) == [ok |-> FALSE, id |-> c.id, clause |-> clause, idx |-> idx, dst |-> dst, exp |-> exp, at |-> "elsewhere"]
 
 \* ---------------------------------------------------------------- timer_trigger_next
 VNext(c) ==
@@ -75,6 +82,33 @@ VRun(c) ==
   ELSE IF c.afterRemoval > 0 THEN Rej(c, "run-after-removal", c.afterRemoval, "none", None)
   ELSE Runs(c, [t |-> c.startup, fold |-> 0], 1)
 
+\* ---------------------------------------------------------------- @time_trigger next to other trigger sources
+\* the time source alone: the recording with every other run left out must be a "run" recording.
+\* `at` says where the instant a rejection is about lies (the input classes of two known findings):
+\* a wake-up was applied at its clock reading or within TieWin before it / it is the startup instant itself
+TieWin == 3      \* microseconds
+VMix(c) ==
+  LET v == VRun([c EXCEPT !.runs = TimeRuns(c.runs)])
+  IN IF ~v.ok THEN [v EXCEPT !.at = IF v.exp.k # "at" THEN "elsewhere"
+                                    ELSE IF v.exp.t = c.startup THEN "startup-instant"
+                                    ELSE IF WakeJustBefore(c.stims, TS!UtcOfT(v.exp.t), TieWin) THEN "wake-up-just-before"
+                                    ELSE "elsewhere"]
+     ELSE LET O == OtherRuns(c.runs)
+              B == { j \in 1..Len(O) : ~Caused(O[j], c.co, c.stims, c.t0, Tol) }
+          IN IF B = {} THEN Ok ELSE Rej(c, "run-without-cause", MinN(B), "none", None)
+\* what the recording exercised (coverage only; the hold facts in the domain of HoldFold)
+Facts(c) ==
+  LET tr == TimeRuns(c.runs)
+      hd == c.co.state /\ c.co.hold /\ c.co.plain
+      h  == IF hd THEN HoldFold(c.co, c.stims, c.horizon) ELSE H0
+  IN [id |-> c.id, timeRuns |-> Len(tr), otherRuns |-> Len(c.runs) - Len(tr),
+      wakesBetween |-> Cardinality(WakesBetween(c.stims, tr)),
+      wakeAtInstant |-> \E j \in 1..Len(tr) : WakeJustBefore(c.stims, TS!UtcOfT(tr[j].tt), TieWin),
+      abandoned |-> Len(h.ab), completed |-> Len(h.done),
+      abandonedBeforeInstant |-> hd /\ AbandonedBeforeInstant(h, tr),
+      holdSpansInstant |-> hd /\ HoldSpansInstant(h, tr),
+      holdEndsAtInstant |-> hd /\ HoldEndsAtInstant(h, tr, Tol)]
+
 \* ---------------------------------------------------------------- environment validation
 VUtc(c)   == IF TS!UtcSec(c.t[1], c.fold) = c.obs THEN Ok ELSE Rej(c, "env-utc", 0, "none", None)
 VLocal(c) == LET l == TS!LocalOf(c.u) IN
@@ -83,6 +117,7 @@ VLocal(c) == LET l == TS!LocalOf(c.u) IN
 Verdict(c) == CASE c.kind = "next"   -> VNext(c)
                 [] c.kind = "active" -> VActive(c)
                 [] c.kind = "run"    -> VRun(c)
+                [] c.kind = "mix"    -> VMix(c)
                 [] c.kind = "utc"    -> VUtc(c)
                 [] c.kind = "local"  -> VLocal(c)
 
@@ -92,6 +127,7 @@ Next == i <= Len(Cases) /\ i' = i + 1
 Spec == Init /\ [][Next]_i
 Report == i <= Len(Cases) =>
   LET v == Verdict(Cases[i])
-  IN IF v.ok THEN TRUE
-     ELSE PrintT("REJECT " \o ToJson([id |-> v.id, clause |-> v.clause, idx |-> v.idx, dst |-> v.dst, exp |-> v.exp]))
+  IN /\ IF Cases[i].kind = "mix" THEN PrintT("INFO " \o ToJson(Facts(Cases[i]))) ELSE TRUE
+     /\ IF v.ok THEN TRUE
+        ELSE PrintT("REJECT " \o ToJson([id |-> v.id, clause |-> v.clause, idx |-> v.idx, dst |-> v.dst, exp |-> v.exp, at |-> v.at]))
 =============================================================================
